@@ -51,7 +51,10 @@ def seg_inputs(draw):
     nt = draw(st.integers(1, 6))
     pattern = draw(st.sampled_from(["any", "any", "gap", "lead_empty", "all_empty"]))
     frames = []
-    lab = draw(st.integers(1, 30))
+    dtype = draw(st.sampled_from(["int32", "uint16", "int64", "uint64", "uint8"]))
+    # label values up to what the dtype can hold (large labels in narrow dtypes included)
+    lab = draw(st.integers(1, 30)) + draw(st.sampled_from(
+        {"uint8": [0, 100], "uint16": [0, 250, 40000]}.get(dtype, [0, 250, 40000, 100000])))
     for t in range(nt):
         k = draw(st.integers(0, 4))
         if pattern == "all_empty":
@@ -64,7 +67,7 @@ def seg_inputs(draw):
             k = 0
         dets = []
         for box in _boxes_nonoverlapping(draw, spatial, k):
-            lab += draw(st.integers(1, 5))
+            lab += draw(st.integers(1, 5)) if dtype != "uint8" else 1
             dets.append({"label": lab, "box": box})
         frames.append(dets)
     scale = draw(st.sampled_from([None, "iso", "aniso"]))
@@ -79,7 +82,7 @@ def seg_inputs(draw):
         r = draw(st.integers(0, 40)) / 4.0
     return {"spatial": list(spatial), "frames": frames, "scale": scale, "rmode": rmode, "r": r,
             "pick": draw(st.integers(0, 10**6)), "iou": draw(st.booleans()),
-            "dtype": draw(st.sampled_from(["int32", "uint16", "int64", "uint64"]))}
+            "dtype": dtype}
 
 
 @st.composite
